@@ -3,7 +3,7 @@
 # change, run the check against the copy (VERIF_REPO), report, delete the copy.
 #   patch file: *.diff / *.patch applied with `git apply`;  otherwise: a bash script run with cwd = copy
 set -u
-CH="$1"; ID="$2"; TIER="${3:-quick}"
+CH="$(realpath "$1")"; ID="$2"; TIER="${3:-quick}"
 D=$(mktemp -d /var/tmp/verif-mut.XXXXXX)
 trap 'rm -rf "$D"' EXIT
 rsync -a --exclude .git /repo/ "$D/"
